@@ -30,6 +30,10 @@ def run(ctx):
     ctx.each(r11h, ctx, repo)
     ctx.each(r11i, ctx, repo)
     ctx.each(r11j, ctx, repo)
+    # the coverage the run uses is the one get_prop_covered defines (also for zero capacity / nobody eligible): no path of its own in update_pars
+    from .c13 import r13a
+
+    ctx.each(r13a, ctx, repo)
 
 
 def _is_one(e):
